@@ -27,6 +27,7 @@ mod c17;
 mod c18;
 mod c19;
 mod c20;
+mod e2e;
 
 #[global_allocator]
 static GLOBAL: alloc_mon::CountingAlloc = alloc_mon::CountingAlloc;
@@ -42,6 +43,7 @@ fn main() {
     common::quiet_panics();
     match sub.as_str() {
         "noop" => {}
+        "wal-dump" => e2e::wal_dump(&args),
         "dbg-dst" => {
             use redis_sim::redis::{ExecutorDSTConfig, ExecutorDSTHarness};
             let seed = args.seed;
